@@ -32,6 +32,18 @@ def lateOk (model impl : List Send) (wake : List Time) : Bool :=
   dsts.all fun d =>
     lateOkDst wake ((model.filter fun s => (s.mc, s.host) == d).map (·.t)) ((impl.filter fun s => (s.mc, s.host) == d).map (·.t))
 
+/-- as `lateOk`, but either side may have lost trailing transmissions per destination (a
+    scripted transmit failure ends the run at a point that depends on the call order) -/
+def lateOkDstPrefix (wake : List Time) : List Time → List Time → Bool
+  | [], _ => true
+  | _, [] => true
+  | t :: ts, t' :: ts' => (t' == t || (decide (t < t') && wake.contains t')) && lateOkDstPrefix wake ts ts'
+
+def lateOkPrefix (model impl : List Send) (wake : List Time) : Bool :=
+  let dsts := (model ++ impl).map (fun s => (s.mc, s.host)) |>.eraseDups
+  dsts.all fun d =>
+    lateOkDstPrefix wake ((model.filter fun s => (s.mc, s.host) == d).map (·.t)) ((impl.filter fun s => (s.mc, s.host) == d).map (·.t))
+
 def lostNote : String :=
   "class=schedgroup-lost-wakeup a scheduled transmission fired late, at the scheduler's next wake-up (lost wake-up in mdlayher/schedgroup.Schedule)"
 
@@ -169,8 +181,12 @@ def advLate (c : AdvCase) (i : ImplAdv) : Bool :=
   let m := writes c
   let toSend := fun (w : Write) => ({ t := w.t, mc := w.mc, host := w.host } : Send)
   let implW := i.writes.map (·.1)
-  decide (c.failWrite < 0) && implW != m && i.status == "nil" && !implW.any (·.failed) &&
-    lateOk (m.map toSend) (implW.map toSend) ((allRequests c).map (·.1) ++ m.map (·.t))
+  let modelStatus := if (failureTime c).isSome then "error" else "nil"
+  -- with a scripted failing transmission the n-th write (in call order) fails; lateness can change
+  -- which transmission that is, so only the destinations/instants and the outcome are compared
+  implW != m && i.status == modelStatus && (implW.filter (·.failed)).length == (m.filter (·.failed)).length &&
+    (decide (c.failWrite < 0) && lateOk (m.map toSend) (implW.map toSend) ((allRequests c).map (·.1) ++ m.map (·.t)) ||
+     decide (c.failWrite ≥ 0) && lateOkPrefix (m.map toSend) (implW.map toSend) ((allRequests c).map (·.1) ++ m.map (·.t) ++ implW.map (·.t)))
 
 /-- `adv6 …` — C06 on a full advertiser run -/
 def adv6 (c impl : List String) : Option Verdict := do
